@@ -121,6 +121,9 @@ impl Set {
     #[verifier::external_body] pub fn contains(&self, v: &Value) -> (r: bool) ensures r == set_mem(*self, v.value) { unimplemented!() }
     #[verifier::external_body] pub fn is_subset(&self, o: &Set) -> (r: bool) ensures r == set_subset(*self, *o) { unimplemented!() }
     #[verifier::external_body] pub fn is_disjoint(&self, o: &Set) -> (r: bool) ensures r == set_disjoint(*self, *o) { unimplemented!() }
+    // len / is_empty: proved in unit value_set (number of elements of the authoritative set)
+    #[verifier::external_body] pub fn len(&self) -> (r: usize) ensures r == self.spec_len() { unimplemented!() }
+    #[verifier::external_body] pub fn is_empty(&self) -> (r: bool) ensures r == (self.spec_len() == 0) { unimplemented!() }
 }
 impl Pattern {
     pub uninterp spec fn spec_match(&self, t: SmolStr) -> bool;
